@@ -92,7 +92,7 @@ class C06(Engine):
         idx = 1_000_000
         # (a) every tainter followed by every pool member (one predecessor is enough for these)
         for t in tainters[: (4 if q else 12)]:
-            for s in (stressy if q else all_ids):
+            for s in all_ids:
                 yield idx, {"kind": "pair", "probe_state": True, "ops": [{"op": "api", "file": t}, {"op": "api", "file": s}]}
                 idx += 1
         # (b) seeded histories of length 3..8 with varying options
